@@ -14,10 +14,20 @@ import (
 //   6 invalid type (0 or above 14, symbolic)     7 Int8 (1 register, high/low symbolic)
 var vhServers = []string{"hostA:502", "hostB:502"}
 
+// adversarial target names for the grouping key: server strings that are prefixes of each other and unit ids whose
+// decimal forms make "server+unit" ambiguous when concatenated (all concrete)
+var vhTrickyServers = []string{"h1", "h11", "h1_1"}
+var vhTrickyUnits = []uint8{1, 2, 11, 12, 21}
+
 func vhField(i int, class int) Field {
 	f := Field{Name: []string{"f0", "f1", "f2", "f3"}[i]}
-	f.ServerAddress = vhServers[vndChoice("server", 2)]
-	f.UnitID = vndU8("unit")
+	if vndParam("tricky") == 1 {
+		f.ServerAddress = vhTrickyServers[vndChoice("server", len(vhTrickyServers))]
+		f.UnitID = vhTrickyUnits[vndChoice("unit", len(vhTrickyUnits))]
+	} else {
+		f.ServerAddress = vhServers[vndChoice("server", 2)]
+		f.UnitID = vndU8("unit")
+	}
 	f.Address = vndU16("address")
 	f.ByteOrder = packet.ByteOrder(vndU8("byteorder"))
 	switch class {
